@@ -55,6 +55,7 @@ fn main() {
             "c10c" => shard::run_c10c(&toks[1..]),
             "c18" => shard::run_c18(&toks[1..]),
             "c18m" => shard::run_c18m(&toks[1..]),
+            "mgr" => shard::run_mgr(&toks[1..]),
             "dd" => dedup::run(&toks[1..]),
             "cache" => cache::run(&toks[1..]),
             "crash" => crash::run(&toks[1..]),
